@@ -133,7 +133,7 @@ def run(ctx, replay=None):
              {"op": "stack", "args": ["v1", "v5"], "axis": 0, "out": "v6"},
              {"op": "sub", "args": ["v6", "v2"], "out": "v7"}]
     check_program(ctx, probe, None)
-    N = ctx.scale(700, 6000)
+    N = ctx.scale(1200, 8000)
     mini = []
     for i in range(N):
         zero = 0.05 if rng.random() < 0.2 else 0.0
